@@ -72,6 +72,17 @@ def loader_accepts_path_and_file(ctx, rule: str, loader_key: str):
             )
             if loads_obj:
                 branches = True
+    # the path side of the branch: the repo's own helper `ensure_open` treats str, bytes and os.PathLike as paths, and the
+    # loaders are annotated with the same LoadSource type; a loader whose test is `isinstance(x, str)` alone hands a
+    # pathlib.Path to json.load and fails (sibling disagreement)
+    if branches and not uses_ensure:
+        narrow = []
+        for n in body_walk(fi.node):
+            if isinstance(n, ast.If) and isinstance(n.test, ast.Call) and dotted(n.test.func) == "isinstance" and len(n.test.args) == 2 and norm(n.test.args[0]) == src:
+                t = norm(n.test.args[1])
+                if not any(x in t for x in ("PathLike", "Path", "AnyPath")):
+                    narrow.append(n)
+        ctx.check(not narrow, rule, fi.key + ":path-types", "every kind of path the sibling loaders accept (str / os.PathLike) is opened", f"{fi.qualname} treats only `{norm(narrow[0].test.args[1]) if narrow else ''}` as a path, unlike ensure_open (str, bytes, os.PathLike) used by its siblings and unlike its own LoadSource annotation: given a pathlib.Path it tries to read from the path object and fails", f"{fi.module.relpath}:{narrow[0].lineno}" if narrow else fi)
     ok = uses_ensure or branches
     ctx.check(ok, rule, fi.key, "accepts a path or an open file" + (" (ensure_open)" if uses_ensure else " (isinstance branch)"),
               f"{fi.qualname} only works for a path: it opens `{src}` directly and has no branch for an already-open file" if opens_directly else f"{fi.qualname} has no recognised path-or-file handling for `{src}`", fi)
